@@ -20,6 +20,7 @@
 //!     dec     = what serde_json says about each frame (as in the wire suite)
 //!   (raceprobe <n>)   n sessions of one call whose service replies and immediately closes
 //!   (closeprobe <n>)  n runs of `REQUEST | varlink -A <service> bridge` (stdin closed right after the request)
+//!   (goneprobe <variant>)  the client is on two pipes and goes away while a call is pending and the service silent
 //!
 //! Observation:
 //!   (obs (bridged (out <reply>*) b<raw> <end>) (exit <code|sig<n>|timeout|closed-by-service>)
@@ -35,6 +36,7 @@
 //!     the service connection (aebf686) and forwards what the service still answers
 //!   (raceprobe lost|kept)          lost: in at least one session the reply did not arrive
 //!   (closeprobe cut|complete)      cut: in at least one run the reply did not arrive
+//!   (goneprobe stopped|running|no-first-reply)
 //!
 //! The direct runs use one connection per service carrying the requests that a client would send
 //! to that service itself: the interface is looked up in the table (the i-th lookup of the session
@@ -1106,6 +1108,102 @@ fn run_closeprobe(ctx: &Ctx, l: &[Sx]) -> Sx {
     sx::tagged("closeprobe", vec![sx::atom(if cut > 0 { "cut" } else { "complete" })])
 }
 
+/// `(goneprobe <variant>)`: the client talks to the bridge over two PIPES (a parent process, a shell
+/// pipeline; not a socket) and goes away while the service is silent and a call is pending:
+///   resolver-stream   `-R … bridge`, a `more` call whose first reply has arrived; the client closes both pipes
+///   resolver-slow     `-R … bridge`, a call that is not answered yet; the client closes both pipes
+///   connect-readside  `bridge --connect`, pending call; the client closes only the pipe it READS from
+///   activate-readside `-A … bridge`, the same
+/// When either side closes the bridge stops: it must have exited long before the service says anything.
+///   -> (goneprobe stopped|running)
+fn run_goneprobe(ctx: &Ctx, l: &[Sx]) -> Sx {
+    let variant = l[1].as_atom().unwrap_or("").to_string();
+    let sub = Subst::new(ctx, "g");
+    let w = WorldSpec { svc: wire::svc_cfg("gone", &[], false).sx, resolver: None, up: true, seq: false };
+    let addr = service_address(&sub, 0);
+    let table = vec![("org.example.abort".to_string(), vec![addr.clone()])];
+    let resolver_addr = format!("unix:{}/resolver.sock", sub.dir);
+    let mut services = Vec::new();
+    let mut cmd = Command::new(varlink_cli_path());
+    let mut dump = None;
+    match variant.as_str() {
+        "connect-readside" => {
+            services.push(spawn_service(&w, &addr));
+            cmd.arg("bridge").arg("--connect").arg(&addr);
+        }
+        "activate-readside" => {
+            std::fs::write(format!("{}/spec", sub.dir), w.to_sx().render() + "\n").unwrap();
+            let d = format!("{}/dump.json", sub.dir);
+            cmd.arg("-A").arg(format!("{} serve {}/spec $VARLINK_ADDRESS --idle 3 --dump {}", helper_path(), sub.dir, d)).arg("bridge");
+            dump = Some(d);
+        }
+        _ => {
+            services.push(spawn_service(&w, &addr));
+            services.push(spawn_service(&resolver_world(&table), &resolver_addr));
+            cmd.arg("-R").arg(&resolver_addr).arg("bridge");
+        }
+    }
+    const SILENCE_MS: u64 = 2500;
+    let mut child = cmd.stdin(Stdio::piped()).stdout(Stdio::piped()).stderr(Stdio::null()).spawn().expect("spawn varlink");
+    let mut stdin = child.stdin.take();
+    let mut stdout = child.stdout.take();
+    let mut guard = ChildGuard::new(child);
+    let stream = variant == "resolver-stream";
+    let mut f = if stream {
+        serde_json::to_vec(&json!({"method":"org.example.abort.SlowStream","more":true,"parameters":{"delay_ms":SILENCE_MS,"token":"gone"}})).unwrap()
+    } else {
+        serde_json::to_vec(&json!({"method":"org.example.abort.SlowReply","parameters":{"delay_ms":SILENCE_MS,"token":"gone"}})).unwrap()
+    };
+    f.push(0);
+    if let Some(s) = stdin.as_mut() {
+        let _ = s.write_all(&f);
+        let _ = s.flush();
+    }
+    let mut started = true;
+    if stream {
+        // wait for the first reply
+        started = false;
+        if let Some(o) = stdout.as_mut() {
+            let fd = o.as_raw_fd();
+            let mut pfd = libc::pollfd { fd, events: libc::POLLIN, revents: 0 };
+            let mut got = Vec::new();
+            let t0 = Instant::now();
+            while t0.elapsed() < Duration::from_millis(2000) && !got.contains(&0) {
+                let r = unsafe { libc::poll(&mut pfd, 1, 100) };
+                if r > 0 {
+                    let mut buf = [0u8; 4096];
+                    match o.read(&mut buf) {
+                        Ok(0) | Err(_) => break,
+                        Ok(n) => got.extend_from_slice(&buf[..n]),
+                    }
+                }
+            }
+            started = got.contains(&0);
+        }
+    } else {
+        // the request is with the service by now (the activated service has to start first)
+        std::thread::sleep(Duration::from_millis(if dump.is_some() { 500 } else { 300 }));
+    }
+    // the client goes away
+    drop(stdout.take());
+    if variant.starts_with("resolver") {
+        drop(stdin.take());
+    }
+    let stopped = guard.wait_timeout(Duration::from_millis(1200)).is_some();
+    if let Some(d) = &dump {
+        if let Some(v) = read_dump(d, Duration::from_millis(50)) {
+            if let Some(p) = v["pid"].as_i64() {
+                guard.extra_pids.push(p as i32);
+            }
+        }
+    }
+    drop(stdin);
+    drop(guard);
+    drop(services);
+    let _ = std::fs::remove_dir_all(&sub.dir);
+    sx::tagged("goneprobe", vec![sx::atom(if !started { "no-first-reply" } else if stopped { "stopped" } else { "running" })])
+}
+
 // ---------------------------------------------------------------------------
 // generators
 
@@ -1455,6 +1553,7 @@ impl Suite for ProxySuite {
             }
             let hard_at = if rng.chance(1, 4) && len > 0 { rng.below(len) } else { usize::MAX };
             let mut frames = Vec::new();
+            let mut upgrade_flag_at: Option<usize> = None;
             for i in 0..len {
                 tok += 1;
                 let t = format!("k{}z", tok);
@@ -1473,9 +1572,30 @@ impl Suite for ProxySuite {
                     if delayed && (mtag == "activate" || mtag == "bridgecmd" || mtag == "connect") && client == "stepwise" && rng.chance(3, 4) {
                         client = "pipelined";
                     }
+                    // the `upgrade` flag on a call the bridge answers itself with an error: nothing is
+                    // upgraded, the session goes on in varlink mode with the calls behind it
+                    let self_answered = tags.iter().any(|t| ["hard:unknown-interface", "hard:nodot", "hard:unreachable", "hard:getdesc-noparams", "hard:getdesc-unknown"].contains(&t.as_str()));
+                    let oneway = frame_flags(&f).0;
+                    let mut f = f;
+                    if self_answered && !oneway && (mtag == "resolver" || mtag == "bridge2") && rng.chance(1, 2) {
+                        let mut v: Value = serde_json::from_slice(&f).unwrap();
+                        v["upgrade"] = json!(true);
+                        f = serde_json::to_vec(&v).unwrap();
+                        tags.push("hard:upgrade-flag-on-bridge-answered-error".into());
+                        upgrade_flag_at = Some(i);
+                    }
                     frames.push(f);
                 } else {
                     frames.push(gen_good_request(&mut rng, &gw, &t, &mut tags));
+                }
+            }
+            if let Some(i) = upgrade_flag_at {
+                // ordinary calls behind it: one to a service, one more of any kind
+                for _ in 0..(if i + 1 == frames.len() { 2 } else { 1 }) {
+                    tok += 1;
+                    let t = format!("k{}z", tok);
+                    let sc = rng.pick(&gw.scripts).clone();
+                    frames.push(serde_json::to_vec(&json!({"method": format!("{}.Run", sc.0), "parameters": {"script": [{"op":"reply","p":{"token": t}}], "token": t}})).unwrap());
                 }
             }
             // the same interface before and after a call that is routed to the resolver: the cached
@@ -1548,6 +1668,7 @@ impl Suite for ProxySuite {
             "proxy" => run_proxy(ctx, l),
             "raceprobe" => run_raceprobe(ctx, l),
             "closeprobe" => run_closeprobe(ctx, l),
+            "goneprobe" => run_goneprobe(ctx, l),
             other => panic!("case kind {}", other),
         }
     }
